@@ -792,6 +792,9 @@ class Translator:
 
     def builtin(self, name, args, kwargs, n):
         a0 = args[0] if args else None
+        if name in ("list", "tuple", "set", "frozenset", "sorted", "len", "enumerate", "zip", "sum", "any", "all", "min", "max") and any(isinstance(x, SelfObj) for x in args):
+            args = [self._iterable(x, n, 0) if isinstance(x, SelfObj) else x for x in args]
+            a0 = args[0]
         if name == "int":
             if is_sym(a0) and a0.is_number:
                 return sp.Integer(int(a0))
